@@ -1,2 +1,55 @@
--- line-protocol model driver for C08 (stub)
-def main : IO Unit := IO.println "stub C08"
+/- Line-protocol model driver for C08 (threaded channel, single event loop, deterministic schedule).
+   One line = one history:   <requeue> <head> <redispatch> <check> <limit> op op op ...
+     g<f>:<x>   fiber f gives item x          t<f>   fiber f takes        a<f>   fiber f abandons its wait
+     c          close
+   After every op the (single) self-pipe is drained: `handle 0` until no message is in flight.
+   Output: one observation per op, separated by " ; " :   <#items> d=<fiber>:<item>,... w=<fiber>,...  (delivered log, close wake-ups)
+-/
+import Driver.Util
+import JanetModel.Thread.Model
+open Driver JanetModel.Thread
+
+def pump (cfg : Cfg) : Nat → St → St
+  | 0, s => s
+  | n + 1, s => if s.flight.isEmpty then s else pump cfg n (handle cfg s 0)
+
+def obs (s : St) : String :=
+  let d := String.intercalate "," (s.delivered.map (fun p => s!"{p.1}:{p.2}"))
+  let w := String.intercalate "," ((s.woken.filter (fun p => p.2 == Kind.close)).map (fun p => toString p.1))
+  s!"{s.items.length} d={d} w={w}"
+
+def parseOp (tok : String) : Option Act :=
+  match tok.toList with
+  | 'g' :: rest =>
+    match (String.ofList rest).splitOn ":" with
+    | [f, x] => match f.toNat?, x.toNat? with
+      | some f, some x => some (.give 0 f x)
+      | _, _ => none
+    | _ => none
+  | 't' :: rest => (String.ofList rest).toNat?.map (fun f => .take 0 f)
+  | 'a' :: rest => (String.ofList rest).toNat?.map (fun f => .abandon f)
+  | ['c'] => some (.close 0)
+  | _ => none
+
+def b (s : String) : Bool := s == "1"
+
+def runLine (toks : List String) : String :=
+  match toks with
+  | rq :: hd :: rd :: ck :: lim :: ops =>
+    match lim.toNat? with
+    | none => "bad-op"
+    | some l =>
+      let cfg : Cfg := ⟨b rq, b hd, b rd, b ck⟩
+      let rec go (s : St) (ops : List String) (acc : List String) : List String :=
+        match ops with
+        | [] => acc.reverse
+        | o :: rest =>
+          match parseOp o with
+          | none => ("bad-op" :: acc).reverse
+          | some a =>
+            let s' := pump cfg 64 (step cfg s a)
+            go s' rest (obs s' :: acc)
+      String.intercalate " ; " (go (init l) ops [])
+  | _ => "bad-op"
+
+def main : IO Unit := runLoop () (fun _ toks => ((), runLine toks))
